@@ -111,6 +111,14 @@ def sig_of(kind, info, text):
     return f"C02:{kind}:{feats}"
 
 
+def setup(ctx):
+    sp.scan_states_on()
+
+
+def finish(ctx):
+    sp.scan_states_flush(ctx)
+
+
 def check(case, ctx):
     text = case["text"]
     items = recogniser.recognise(text)
